@@ -77,6 +77,15 @@ Definition unchosen_ctx_ok (i : mem) (x : snapshot) : bool :=
       up; the deadline is visible on the context at once, no need to wait for it.) *)
 Definition timer_ok (i : mem) (x : snapshot) : bool := negb (ms_timer (om i x)).
 
+(* 3d. "Stays live until the returned reader is closed and is cancelled afterwards": the chosen
+      member's context is still live when its reader's Close STARTS (the unifier closes the
+      member's reader first and cancels second), and at the start of every other method of that
+      reader called before (Read, Descriptor, ...) - the caller's own cancellation aside.  What a
+      member reader that releases or drains its stream under the context of the call that opened
+      it gets to see; sampled inside the member reader's methods. *)
+Definition early_ok (i : mem) (x : snapshot) : bool :=
+  implb (chosen i x) (negb (ms_early (om i x))).
+
 (* 4. No goroutine remains blocked once both members have returned.  (Stronger, at every quiet
       moment: the goroutines alive are those inside a member call, plus the caller's while the
       call is still waiting for an answer.) *)
@@ -89,6 +98,7 @@ Definition goroutines_ok (x : snapshot) : bool :=
 Definition snap_ok (y : style) (x : snapshot) : bool :=
   result_ok x && reader_ok M0 x && reader_ok M1 x && ctx_ok y x
   && unchosen_ctx_ok M0 x && unchosen_ctx_ok M1 x && timer_ok M0 x && timer_ok M1 x
+  && early_ok M0 x && early_ok M1 x
   && goroutines_ok x.
 
 Fixpoint firsts_ok (prev : option snapshot) (l : list snapshot) : bool :=
